@@ -1263,6 +1263,9 @@ func (g *DocGen) Swagger(path []string) obj {
 
 // canonLocalRef builds the canonical text of a fragment-only reference to section/name
 // (RFC 6901 escaping, then the escaping net/url applies to fragments).
+// CanonLocalRef is exported for the harness.
+func CanonLocalRef(section, name string) string { return canonLocalRef(section, name) }
+
 func canonLocalRef(section, name string) string {
 	return "#" + FragmentEscape("/"+section+"/"+oracle.EscapeToken(name))
 }
